@@ -314,7 +314,11 @@ class Machine:
             self.reg(req.resource.release(req), "rel")
             return None
         if k == "cancel":
-            self.events[o["a"]].cancel()        # (an eviction by the re-scan registers its Interruption itself)
+            ev = self.events[o["a"]]
+            if o.get("b") == 1 and self.kinds[o["a"]] in ("put", "get"):
+                ev.__exit__(None, None, None)   # leaving `with store.get() as g:` normally while g is still pending
+            else:
+                ev.cancel()                     # (an eviction by the re-scan registers its Interruption itself)
             return None
         if k == "withexit":
             self.events[o["a"]].__exit__(None, None, None)
@@ -610,7 +614,8 @@ class Chooser:
             if k in ("cancel", "withexit") and room:
                 u = [x for x in self.mine(P, ("req",) if k == "withexit" else ("req", "put", "get")) if m.queued_or_done(x)]
                 if u:
-                    return dict(Z, k=k, a=rng.choice(u))
+                    a = rng.choice(u)
+                    return dict(Z, k=k, a=a, b=1 if (k == "cancel" and m.kinds[a] in ("put", "get") and rng.random() < 0.5) else 0)
             if k in ("put", "get") and room:
                 rs = [r for r in range(1, len(m.resources)) if m.rkinds[r] not in ("res", "prio", "preempt")]
                 if rs:
